@@ -145,3 +145,125 @@ func zzC10aConnGuards() {
 	vf.Assert("never-reconnects", b.dials == dials)
 	vf.Reach("end")
 }
+
+func zzCallsOf(t *zzTr) []*message.UpstreamCall {
+	var out []*message.UpstreamCall
+	for _, m := range t.msgs() {
+		if c, ok := m.(*message.UpstreamCall); ok {
+			out = append(out, c)
+		}
+	}
+	return out
+}
+
+// C16: two concurrent callers; acks, replies, spurious and duplicated messages in any of several orders.
+func zzC16Calls() {
+	b := zzNewBroker()
+	b.handler = func(t *zzTr, m message.Message) bool { return true } // the scenario answers by hand
+	conn := zzConnect(b)
+	tr := b.last()
+	ctx := context.Background()
+
+	var replyA *DownstreamReplyCall
+	var errA, errB error
+	var idB string
+	doneA, doneB := false, false
+	pa, pb := vf.U8("payload.a"), vf.U8("payload.b")
+	go func() {
+		replyA, errA = conn.SendCallAndWaitReplayCall(ctx, &UpstreamCall{DestinationNodeID: "dst", Name: "na", Type: "ta", Payload: []byte{pa}})
+		doneA = true
+	}()
+	vf.Settle()
+	go func() {
+		idB, errB = conn.SendCall(ctx, &UpstreamCall{DestinationNodeID: "dst", Name: "nb", Type: "tb", Payload: []byte{pb}})
+		doneB = true
+	}()
+	vf.Settle()
+	calls := zzCallsOf(tr)
+	vf.Assert("both-calls-on-the-wire", len(calls) == 2)
+	if len(calls) != 2 {
+		return
+	}
+	ca, cb := calls[0], calls[1]
+	vf.Assert("calls-unmodified", ca.Name == "na" && cb.Name == "nb" && len(ca.Payload) == 1 && ca.Payload[0] == pa && len(cb.Payload) == 1 && cb.Payload[0] == pb)
+	vf.Assert("fresh-call-ids", ca.CallID != cb.CallID && ca.CallID != "" && cb.CallID != "")
+	vf.Assert("still-waiting", !doneA && !doneB)
+
+	negB := vf.Choose("b.ack.negative", 2) == 1
+	codeB := message.ResultCodeSucceeded
+	if negB {
+		codeB = message.ResultCodeUnspecifiedError
+	}
+	rp := vf.U8("reply.payload")
+	ackA := &message.UpstreamCallAck{CallID: ca.CallID, ResultCode: message.ResultCodeSucceeded}
+	ackB := &message.UpstreamCallAck{CallID: cb.CallID, ResultCode: codeB, ResultString: "rb"}
+	reply := &message.DownstreamCall{CallID: "reply-1", RequestCallID: ca.CallID, SourceNodeID: "dst", Name: "rn", Type: "rt", Payload: []byte{rp}}
+	foreign := &message.DownstreamCall{CallID: "reply-x", RequestCallID: "nobody", SourceNodeID: "x", Name: "x", Type: "x"}
+	spurious := &message.UpstreamCallAck{CallID: "unknown-call", ResultCode: message.ResultCodeSucceeded}
+
+	switch vf.Choose("order", 5) {
+	case 0:
+		tr.push(ackA); tr.push(ackB); tr.push(reply)
+	case 1:
+		tr.push(ackB); tr.push(reply); tr.push(ackA) // reply before its ack
+	case 2:
+		tr.push(spurious); tr.push(foreign); tr.push(ackB); tr.push(ackA); tr.push(reply)
+	case 3:
+		tr.push(ackA); tr.push(ackA); tr.push(reply); tr.push(ackB); tr.push(ackB) // duplicated acks
+	case 4:
+		tr.push(reply); tr.push(foreign); tr.push(ackA); tr.push(spurious); tr.push(ackB)
+	}
+	vf.Settle()
+	vf.Assert("both-returned", doneA && doneB)
+	if !(doneA && doneB) {
+		return
+	}
+	vf.Assert("caller-a-gets-its-reply", errA == nil && replyA != nil)
+	if replyA != nil {
+		vf.Assert("reply-is-for-a", replyA.RequestCallID == ca.CallID && replyA.CallID == "reply-1")
+		vf.Assert("reply-unmodified", replyA.SourceNodeID == "dst" && replyA.Name == "rn" && replyA.Type == "rt" && len(replyA.Payload) == 1 && replyA.Payload[0] == rp)
+	}
+	if negB {
+		vf.Assert("negative-ack-is-an-error-for-b-only", errB != nil && idB == "" && errA == nil)
+	} else {
+		vf.Assert("caller-b-gets-its-call-id", errB == nil && idB == cb.CallID)
+	}
+	// waiters are gone, locks free
+	vf.Assert("ack-table-empty", len(conn.upstreamCallAckCh) == 0)
+	vf.Assert("locks-free", vf.RUnlocked(&conn.upstreamCallAckMu) && vf.RUnlocked(&conn.replyCallsChsMu))
+	// the reply inbox also holds the reply (once) and the foreign reply, in arrival order
+	first, rerr := conn.ReceiveReplyCall(ctx)
+	vf.Assert("reply-inbox-delivers", rerr == nil && first != nil)
+	conn.Close(ctx)
+	vf.Reach("end")
+}
+
+// C16.d: incoming calls are handed to ReceiveCall once each, unmodified, in arrival order.
+func zzC16Receive() {
+	b := zzNewBroker()
+	conn := zzConnect(b)
+	tr := b.last()
+	ctx := context.Background()
+	p1, p2 := vf.U8("p1"), vf.U8("p2")
+	tr.push(&message.DownstreamCall{CallID: "c1", SourceNodeID: "n1", Name: "a", Type: "b", Payload: []byte{p1}})
+	tr.push(&message.DownstreamCall{CallID: "c2", SourceNodeID: "n2", Name: "c", Type: "d", Payload: []byte{p2}})
+	vf.Settle()
+	g1, e1 := conn.ReceiveCall(ctx)
+	g2, e2 := conn.ReceiveCall(ctx)
+	vf.Assert("both-received", e1 == nil && e2 == nil && g1 != nil && g2 != nil)
+	if g1 != nil && g2 != nil {
+		vf.Assert("in-arrival-order-unmodified", g1.CallID == "c1" && g1.SourceNodeID == "n1" && g1.Name == "a" && g1.Type == "b" && len(g1.Payload) == 1 && g1.Payload[0] == p1 &&
+			g2.CallID == "c2" && g2.SourceNodeID == "n2" && g2.Name == "c" && g2.Type == "d" && len(g2.Payload) == 1 && g2.Payload[0] == p2)
+	}
+	cctx, cancel := context.WithCancel(ctx)
+	var e3 error
+	returned := false
+	go func() { _, e3 = conn.ReceiveCall(cctx); returned = true }()
+	vf.Settle()
+	vf.Assert("no-third-call", !returned)
+	cancel()
+	vf.Settle()
+	vf.Assert("cancelled-receive-returns", returned && e3 != nil)
+	conn.Close(ctx)
+	vf.Reach("end")
+}
